@@ -248,6 +248,46 @@ def relayNext (e : Env) (self : Node) (st : NodeSt) (target : Node) (path : Path
   if e.nbr self target then [target]
   else (nextHop st.table target (path ++ [self])).filter (fun v => e.nbr self v)
 
+/-- whether a `FindRoute(target)` of `self` is still waiting: its pending entries (source = self, with
+    a result channel) are still in the pending table.  `respForward` takes the whole list of the
+    target out of the table and signals every such entry. -/
+def findWaiting (self : Node) (st : NodeSt) (target : Node) : Bool :=
+  ((aget st.presp target).getD []).any (fun it => it.src == self && it.ch)
+
+/-- Result of `GetNextHopRandomOrFind` as the relay handlers call it: the new node state, the
+    packets written meanwhile, and the list the next hop is picked from at random (`[]` = the
+    handler gives up with an error). -/
+structure RelayChoice where
+  st    : NodeSt
+  out   : List Packet
+  offer : List Node
+
+/-- `GetNextHopRandomOrFind(ctx, target, skips...)` inside `onRelay` / `onRelayConnChain`, including
+    the discovery branch.  `skips` = `path ++ [self]` is used by BOTH `getNextHopRandom` calls — the
+    one before and the one after `FindRoute` (the extracted fact `Aurora.Generated.RouteSkips` is what
+    route.go does).  `during`: what is delivered to this node's `onRouteResp` while `FindRoute`
+    waits (`none`: nothing, `FindRoute` times out).  A response for `target` that is not discarded
+    signals the waiting `FindRoute`, which returns `GetRoute(target)`; on an error the handler
+    gives up, otherwise the next hop is picked again, from the table as it is now.  Any other
+    outcome: `FindRoute` gives up and removes its pending entries. -/
+def relayOrFind (e : Env) (o : Oracle) (self : Node) (st : NodeSt) (target : Node) (path : Path)
+    (during : Option (Node × Resp)) (now : Nat) : RelayChoice :=
+  let offer := relayNext e self st target path
+  if !offer.isEmpty then ⟨st, [], offer⟩
+  else
+    match startFind e o self st target with
+    | none => ⟨st, [], []⟩
+    | some (st1, out, fwd) =>
+      match during with
+      | none => ⟨findTimeout st1 target fwd, out, []⟩
+      | some (src, resp) =>
+        let r := onRouteResp e self st1 src resp now
+        if findWaiting self r.1 target then ⟨findTimeout r.1 target fwd, out ++ r.2, []⟩
+        else
+          match get r.1.table target with
+          | none => ⟨r.1, out ++ r.2, []⟩
+          | some _ => ⟨r.1, out ++ r.2, relayNext e self r.1 target path⟩
+
 /-! ### network -/
 
 structure Net where
